@@ -767,10 +767,92 @@ def h_after_caller_edits(ctx):
     return Outcome(f"after-edit:{'forged-accepted' if r2.ok else 'forged-rejected'}:{'ok' if not vs else 'bad'}", vs, nontrivial=(alg, ep, edit))
 
 
+# ------------------------------------------------------------------ a key the caller withdrew from a long-lived key set is a different key from then on
+def h_withdrawn(ctx):
+    """One long-lived KeySet {k1, k2}. Some lookups happen first (warm-up); the caller then takes k1 out of the set in one of the ways a
+    public, mutable `keys` list allows (count-preserving and not, same kid and a new one) and puts k3 in; a token signed by the withdrawn
+    k1 is presented: the key set presented no longer holds that key, so the token must be rejected, while tokens of k3 and of the
+    untouched k2 verify. A fresh KeySet with the same members arbitrates (differential oracle: long-lived object vs fresh one)."""
+    from joserfc import jws, jwt
+    from joserfc.jwk import KeySet
+    alg, kind = ctx.choose("alg/key", [("HS256", "oct32"), ("ES256", "P-256"), ("EdDSA", "Ed25519")])
+    ep = ctx.choose("entry_point", ["jws.deserialize_compact", "jwt.decode", "jws.deserialize_json(flattened)", "jws.deserialize_json(general)"])
+    warm = ctx.choose("lookups_before", ["none", "k1", "k2", "k1,k1", "k1,k2", "unknown-kid,k1"])
+    rot = ctx.choose("withdrawal", ["keys[i]=k3 (same kid)", "keys[i]=k3 (new kid)", "remove+append (same kid)", "remove+insert(0) (same kid)",
+                                    "remove+append (new kid)", "keys=[k3,k2] (same kid)", "del keys[i]", "order swapped only"])
+    k1, k2, k3 = scen.key(kind, 0), scen.key(kind, 1), scen.key(kind, 2)
+    pub = lambda j: j if j["kty"] == "oct" else rjwk.public_of(j)  # noqa
+    mkkey = lambda j, kid: A.jkey({**pub(j), "kid": kid}, "dict")  # noqa
+    ks = KeySet([mkkey(k1, "k1"), mkkey(k2, "k2")])
+    new_kid = "k3" if "new kid" in rot else "k1"
+
+    def mk(payload, jwk, kid):
+        seg = b64.enc(rjws.hdr_json({"alg": alg, "kid": kid}).encode())
+        sig = b64.enc(jws_sign(alg, jwk, rjws.signing_input(seg, payload, True)))
+        if ep.endswith("(flattened)"):
+            return {"protected": seg, "payload": b64.enc(payload), "signature": sig}
+        if ep.endswith("(general)"):
+            return {"payload": b64.enc(payload), "signatures": [{"protected": seg, "signature": sig}]}
+        return seg + "." + b64.enc(payload) + "." + sig
+
+    def verify(tok, keyset):
+        if ep == "jws.deserialize_compact":
+            return bytes(jws.deserialize_compact(tok, keyset, algorithms=[alg]).payload)
+        if ep == "jwt.decode":
+            return json.dumps(jwt.decode(tok, keyset, algorithms=[alg]).claims, separators=(",", ":")).encode()
+        return bytes(jws.deserialize_json(copy.deepcopy(tok), keyset, algorithms=[alg]).payload)
+    vs = []
+    fam = alg[:2] if alg != "EdDSA" else alg
+    for w in (warm.split(",") if warm != "none" else []):
+        if w == "unknown-kid":
+            call(verify, mk(b'{"n":0}', k2, "nobody"), ks)
+            continue
+        r = call(verify, mk(b'{"n":0}', {"k1": k1, "k2": k2}[w], w), ks)
+        if not r.ok:
+            return Outcome("genuine-rejected", [viol(f"valid token rejected by {ep}: {fam}* with a two-key set", repr(r.exc))], nontrivial=(alg, ep, warm, rot))
+    old = ks.keys[0]
+    if rot.startswith("keys[i]=k3"):
+        ks.keys[0] = mkkey(k3, new_kid)
+    elif rot.startswith("remove+append"):
+        ks.keys.remove(old)
+        ks.keys.append(mkkey(k3, new_kid))
+    elif rot.startswith("remove+insert"):
+        ks.keys.remove(old)
+        ks.keys.insert(0, mkkey(k3, new_kid))
+    elif rot.startswith("keys=["):
+        ks.keys = [mkkey(k3, new_kid), ks.keys[1]]
+    elif rot == "del keys[i]":
+        del ks.keys[0]
+    else:
+        ks.keys.reverse()
+    withdrawn = rot != "order swapped only"
+    fresh = KeySet([mkkey(j, kid) for j, kid in ([(k2, "k2"), (k1, "k1")] if not withdrawn else [(k2, "k2")] + ([] if rot == "del keys[i]" else [(k3, new_kid)]))])
+    cases = [("the withdrawn key", mk(b'{"admin":true}', k1, "k1")), ("the untouched key", mk(b'{"n":2}', k2, "k2"))]
+    if withdrawn and rot != "del keys[i]":
+        cases.append(("the key put in its place", mk(b'{"n":3}', k3, new_kid)))
+    verdicts = []
+    for who, tok in cases:
+        got, want = call(verify, tok, ks), call(verify, tok, fresh)
+        verdicts.append("ok" if got.ok else "rej")
+        if got.ok and not want.ok:
+            vs.append(viol(f"{ep} returns content signed by a key that is no longer in the key set presented [{rot}]: {fam}*",
+                           f"token of {who} verified against the long-lived set after lookups [{warm}]; a fresh KeySet of the same members: {want.exc!r}; returned {got.value!r}"))
+        elif want.ok and not got.ok:
+            vs.append(viol(f"valid token rejected by {ep} after the key set was edited [{rot}]: {fam}*", f"token of {who}, lookups before [{warm}]: {got.exc!r}"))
+        elif got.ok and got.value != want.value:
+            vs.append(viol(f"{ep} returns a payload other than the signed one after the key set was edited [{rot}]: {fam}*", f"{got.value!r} vs {want.value!r}"))
+    if withdrawn and verdicts[0] == "ok" and not vs:
+        vs.append(viol(f"{ep} returns content signed by a key that is no longer in the key set presented [{rot}]: {fam}*", "fresh and long-lived set both accept the withdrawn key"))
+    return Outcome(f"withdrawn:{'/'.join(verdicts)}", vs, nontrivial=(alg, ep, warm, rot))
+
+
+
+
 _pe = Part("after-caller-edits", h_after_caller_edits, split_depth=2)
 _pe.single_bucket_ok = True          # on a tree where the property holds every forged token is rejected: one outcome
 PARTS = [
     _pe,
+    Part("withdrawn-key", h_withdrawn, split_depth=2),
     Part("long-payloads", h_long, split_depth=2),
     Part("faults", h_faults, bound={"quick": 2, "thorough": 2}, split_depth=4, budget={"quick": 2000, "thorough": 3000}),
 ]
